@@ -67,8 +67,8 @@ type target struct {
 	// loopbody.go: one iteration of a loop as a step function
 	LoopBody  int               // N >= 1: translate the prologue + the body of the N-th top-level for / range statement
 	RangeVars map[string]string // Go types of the range variables of that loop (name -> type text)
-	// ext_isostat.go
 	Fields    []string          // ext_shaping.go: constructor target: the result is the tuple of these fields of the returned struct literal
+	// ext_isostat.go
 	NilRes []string // result types (source text, e.g. "*Rule") reported as a Z code like an error: 0 = nil, Errs[expr] otherwise
 }
 
@@ -288,11 +288,11 @@ func (p *pkgInfo) constEval(e ast.Expr, iota int64) (int64, bool) {
 		}
 	case *ast.ParenExpr:
 		return p.constEval(e.X, iota)
-	case *ast.CallExpr:
 	case *ast.SelectorExpr:
 		if v, ok := timeConsts[src(p.fset, e)]; ok { // time.Millisecond ... (ext_hotspot.go)
 			return v, true
 		}
+	case *ast.CallExpr:
 		if len(e.Args) == 1 {
 			return p.constEval(e.Args[0], iota)
 		}
@@ -313,11 +313,11 @@ func (p *pkgInfo) constEval(e ast.Expr, iota int64) (int64, bool) {
 				return a * b, true
 			case token.SHL:
 				return a << uint(b), true
-			}
 			case token.QUO:
 				if b != 0 {
 					return a / b, true
 				}
+			}
 		}
 	}
 	return 0, false
@@ -603,6 +603,9 @@ func (x *tr) expr(e ast.Expr) val {
 		}
 		fail("selector %s (add a hint)", s)
 	case *ast.UnaryExpr:
+		if v, ok := x.addrOf(e); ok { // ext_hotspot.go: &local handed to a recorded action
+			return v
+		}
 		v := x.expr(e.X)
 		switch e.Op {
 		case token.NOT:
@@ -753,6 +756,9 @@ func (x *tr) convert(to string, v val) val {
 	from := v.typ
 	if from == to {
 		return v
+	}
+	if w, ok := x.convertExt(to, v); ok { // ext_hotspot.go
+		return w
 	}
 	if w, ok := x.convertShaping(to, v); ok { // ext_shaping.go
 		return w
@@ -1051,6 +1057,9 @@ func (x *tr) exec1(stmts []ast.Stmt, rest [][]ast.Stmt) string { // called throu
 	}
 	switch s := s.(type) {
 	case *ast.ReturnStmt:
+		if vs, ok := x.returnFields(s); ok { // ext_shaping.go: constructor targets
+			return x.retTuple(x.withTrace(x.loopRet(vs)))
+		}
 		if len(s.Results) == 0 {
 			var vs []string
 			for i, r := range x.results {
@@ -1058,9 +1067,6 @@ func (x *tr) exec1(stmts []ast.Stmt, rest [][]ast.Stmt) string { // called throu
 					vs = append(vs, cname(r))
 				}
 			}
-		if vs, ok := x.returnFields(s); ok { // ext_shaping.go: constructor targets
-			return x.retTuple(x.withTrace(x.loopRet(vs)))
-		}
 			return x.retTuple(x.withTrace(x.loopRet(vs)))
 		}
 		if len(s.Results) != len(x.resTypes) {
@@ -1104,6 +1110,9 @@ func (x *tr) exec1(stmts []ast.Stmt, rest [][]ast.Stmt) string { // called throu
 		if x.opaqueMulti(s) { // effects.go
 			return x.exec(tail, rest)
 		}
+		if x.actOpaque(s) { // ext_hotspot.go: p := recorded call returning a pointer
+			return x.exec(tail, rest)
+		}
 		if len(s.Lhs) != 1 || len(s.Rhs) != 1 {
 			fail("multi-assignment %s", src(x.p.fset, s))
 		}
@@ -1117,6 +1126,9 @@ func (x *tr) exec1(stmts []ast.Stmt, rest [][]ast.Stmt) string { // called throu
 		if x.assignPointer(s) { // ext_shaping.go: the object is not part of the decision
 			return x.exec(tail, rest)
 		}
+		if out, ok := x.defineComposite(s, tail, rest); ok { // ext_shaping.go: constructor targets
+			return out
+		}
 		if h, ok := x.t.Hints[src(x.p.fset, s.Rhs[0])]; ok && h.Typ == "opaque" && s.Tok == token.DEFINE {
 			x.vars[id.Name] = "ptr:?" // an object used only through further hints
 			return x.exec(tail, rest)
@@ -1127,9 +1139,6 @@ func (x *tr) exec1(stmts []ast.Stmt, rest [][]ast.Stmt) string { // called throu
 		}
 		if x.isMessageExpr(s.Rhs[0]) && s.Tok == token.DEFINE {
 			x.vars[id.Name] = "string"
-		if out, ok := x.defineComposite(s, tail, rest); ok { // ext_shaping.go: constructor targets
-			return out
-		}
 			return x.exec(tail, rest)
 		}
 		var v val
@@ -1429,6 +1438,9 @@ func translate(root *rootT, t target) (def string, info outFn) {
 			}
 		}
 	}
+	if len(t.Fields) > 0 { // ext_shaping.go: a constructor's results are the listed fields of the struct it builds
+		x.resTypes, x.results, pre = x.fieldResTypes(fd), nil, ""
+	}
 	for _, ty := range x.resTypes {
 		if ty == "string" {
 			continue // message strings are not part of the decision: dropped from the result tuple
@@ -1442,9 +1454,6 @@ func translate(root *rootT, t target) (def string, info outFn) {
 	// the obligation.
 	body := pre + x.exec(fd.Body.List, nil)
 	var names []string
-	if len(t.Fields) > 0 { // ext_shaping.go: a constructor's results are the listed fields of the struct it builds
-		x.resTypes, x.results, pre = x.fieldResTypes(fd), nil, ""
-	}
 	for n := range x.params {
 		names = append(names, n)
 	}
@@ -1484,6 +1493,7 @@ func main() {
 	b.WriteString(effectsPreamble)
 	b.WriteString(loopPreamble)
 	b.WriteString(shapingPreamble)
+	b.WriteString(hotspotPreamble)
 	root := &rootT{dir: *repo, pkgs: map[string]*pkgInfo{}}
 	var infos []outFn
 	for _, t := range targets {
